@@ -89,7 +89,7 @@ func C07(c *core.Ctx) {
 			fresh := &core.Atom{Name: "now<staleTime", Match: func(cond ssa.Value) (int, int) {
 				return timeAfter(cond, isStale, isTimeNow)
 			}}
-			res := core.Gate(fn, []ssa.Instruction{r}, neg(mbf), pos(fresh))
+			res := core.GateDeep(fn, []ssa.Instruction{r}, neg(mbf), pos(fresh))
 			key := fmt.Sprintf("freshness-gate:%s#%d", fnm, i)
 			c.Decide(res.OK && res.PerLit[0] > 0 && res.PerLit[1] > 0, "R7.1", key, c.Pos(r),
 				"entry returned only under ¬MustBeFresh ∨ time.Now() before its staleTime",
@@ -106,7 +106,7 @@ func C07(c *core.Ctx) {
 		interest := ssa.Value(find.Params[1])
 		freshGate(find, interest)
 		// node = root.findExactMatchEntryEnc(interest.NameV)
-		exact := core.FindCalls(find, core.CalleeID{Pkg: "fw/table", Recv: "pitCsTreeNode", Name: "findExactMatchEntryEnc"})
+		exact := core.FindCallsDeep(find, core.CalleeID{Pkg: "fw/table", Recv: "pitCsTreeNode", Name: "findExactMatchEntryEnc"})
 		okExact := len(exact) == 1
 		var node ssa.Value
 		if okExact {
@@ -132,13 +132,13 @@ func C07(c *core.Ctx) {
 			return 0, 0
 		}}
 		var pcalls []ssa.Instruction
-		for _, ci := range core.FindCalls(find, core.CalleeID{Pkg: "fw/table", Recv: "pitCsTreeNode", Name: "findMatchingDataCSPrefix"}) {
+		for _, ci := range core.FindCallsDeep(find, core.CalleeID{Pkg: "fw/table", Recv: "pitCsTreeNode", Name: "findMatchingDataCSPrefix"}) {
 			pcalls = append(pcalls, ci)
 			r, a := core.CallArgs(ci.Common())
 			c.Decide(node != nil && core.Same(r, node) && a[0] == interest, "R7.1", "prefix-search-from-exact-node", c.Pos(ci), "prefix search starts at the exact node with the same Interest", "prefix search starts from a node other than the Interest name's exact node")
 		}
 		if len(pcalls) > 0 {
-			res := core.Gate(find, pcalls, pos(cbp))
+			res := core.GateDeep(find, pcalls, pos(cbp))
 			c.Decide(res.OK && res.PassEdges > 0, "R7.1", "prefix-search-needs-CanBePrefix", p.Pos(find.Pos()), "prefix search reachable only with CanBePrefix", "Data with a longer name can be returned for an Interest without CanBePrefix")
 		}
 		// the exact return happens only without CanBePrefix or is fine either way; BeforeUse precedes it
@@ -148,7 +148,7 @@ func C07(c *core.Ctx) {
 				return
 			}
 			if _, ok := isCsEntryLoad(core.Strip(r.Results[0])); ok {
-				okUse := core.Precedes(find, r, func(x ssa.Instruction) bool {
+				okUse := core.PrecedesDeep(find, r, func(x ssa.Instruction) bool {
 					cc, ok := core.IsCall(x, core.CalleeID{Pkg: "fw/table", Recv: "CsReplacementPolicy", Name: "BeforeUse"})
 					if !ok {
 						return false
@@ -163,7 +163,7 @@ func C07(c *core.Ctx) {
 	if pref != nil {
 		freshGate(pref, pref.Params[1])
 		// recursion only into children of the receiver
-		for _, ci := range core.FindCalls(pref, core.CalleeID{Pkg: "fw/table", Recv: "pitCsTreeNode", Name: "findMatchingDataCSPrefix"}) {
+		for _, ci := range core.FindCallsDeep(pref, core.CalleeID{Pkg: "fw/table", Recv: "pitCsTreeNode", Name: "findMatchingDataCSPrefix"}) {
 			r, a := core.CallArgs(ci.Common())
 			ok := rangeComponent(r, 2, func(v ssa.Value) bool { return isFieldLoad(v, pref.Params[0], "children") }) && a[0] == ssa.Value(pref.Params[1])
 			c.Decide(ok, "R7.1", "prefix-descends-into-children", c.Pos(ci), "recursion only into children of the current node", "prefix search leaves the subtree of the Interest name")
@@ -220,15 +220,15 @@ func C07(c *core.Ctx) {
 			start := core.Point{Block: f.E.To, Idx: 0}
 			if !f.Holds { // miss: new entry
 				for _, nm := range []string{"AfterInsert", "EvictEntries"} {
-					fr := core.MustFollow(ins, start, callP(nm), nil)
+					fr := core.MustFollowDeep(ins, start, callP(nm), nil)
 					c.Decide(fr.OK, "R7.2", "insert-then-"+nm, p.Pos(ins.Pos()), "new-entry branch reaches "+nm+" on every path", "a new cache entry can be inserted without "+nm+" being called (capacity is not enforced / LRU not told)")
 				}
 				// AfterInsert before EvictEntries
-				for _, ev := range core.FindCalls(ins, core.CalleeID{Pkg: "fw/table", Recv: "CsReplacementPolicy", Name: "EvictEntries"}) {
-					c.Decide(core.Precedes(ins, ev, callP("AfterInsert")), "R7.2", "AfterInsert-before-EvictEntries", c.Pos(ev), "AfterInsert precedes EvictEntries", "EvictEntries runs before the new entry was reported to the replacement policy")
+				for _, ev := range core.FindCallsDeep(ins, core.CalleeID{Pkg: "fw/table", Recv: "CsReplacementPolicy", Name: "EvictEntries"}) {
+					c.Decide(core.PrecedesDeep(ins, ev, callP("AfterInsert")), "R7.2", "AfterInsert-before-EvictEntries", c.Pos(ev), "AfterInsert precedes EvictEntries", "EvictEntries runs before the new entry was reported to the replacement policy")
 				}
 				// the node's csEntry is stored and registered in csMap
-				fr := core.MustFollow(ins, start, func(in ssa.Instruction) bool {
+				fr := core.MustFollowDeep(ins, start, func(in ssa.Instruction) bool {
 					mu, ok := in.(*ssa.MapUpdate)
 					if !ok {
 						return false
@@ -239,10 +239,10 @@ func C07(c *core.Ctx) {
 				c.Decide(fr.OK, "R7.2", "insert-registers-in-csMap", p.Pos(ins.Pos()), "new entry is put into csMap", "new cache entry is not registered in csMap")
 			} else { // hit: refresh
 				for _, fld := range []string{"wire", "staleTime"} {
-					fr := core.MustFollow(ins, start, storeTo(fld), nil)
+					fr := core.MustFollowDeep(ins, start, storeTo(fld), nil)
 					c.Decide(fr.OK, "R7.2", "refresh-stores-"+fld, p.Pos(ins.Pos()), "refresh stores "+fld, "refreshing an existing cache entry does not store the new "+fld)
 				}
-				fr := core.MustFollow(ins, start, callP("AfterRefresh"), nil)
+				fr := core.MustFollowDeep(ins, start, callP("AfterRefresh"), nil)
 				c.Decide(fr.OK, "R7.2", "refresh-then-AfterRefresh", p.Pos(ins.Pos()), "refresh reaches AfterRefresh", "refreshing an entry does not notify the replacement policy")
 			}
 		}
@@ -342,7 +342,7 @@ func C07(c *core.Ctx) {
 				rets = append(rets, in)
 			}
 		})
-		res := core.Gate(ev, rets, neg(over))
+		res := core.GateDeep(ev, rets, neg(over))
 		c.Decide(res.OK && res.PassEdges > 0, "R7.3", "evict-until-within-capacity", p.Pos(ev.Pos()), "EvictEntries returns only on the edge asserting queue.Len() ≤ capacity", "EvictEntries can return while more than the configured capacity is cached (loop condition is not Len() > capacity)")
 		// each iteration erases the front entry from the table and unlinks it
 		front := func(v ssa.Value) bool {
@@ -405,10 +405,10 @@ func C07(c *core.Ctx) {
 				}
 			}
 		})
-		ok := push != nil && core.MustFollow(fn, core.Point{Block: fn.Blocks[0], Idx: 0}, func(in ssa.Instruction) bool { return in == push }, nil).OK
+		ok := push != nil && core.MustFollowDeep(fn, core.Point{Block: fn.Blocks[0], Idx: 0}, func(in ssa.Instruction) bool { return in == push }, nil).OK
 		c.Decide(ok, "R7.3", "lru-moves-to-back:"+m, p.Pos(fn.Pos()), m+" pushes the entry's index to the back of the queue on every path", m+" does not move the entry to the most-recently-used end of the queue on every path")
 		if ok {
-			fr := core.MustFollow(fn, core.After(push), func(in ssa.Instruction) bool {
+			fr := core.MustFollowDeep(fn, core.After(push), func(in ssa.Instruction) bool {
 				mu, ok := in.(*ssa.MapUpdate)
 				return ok && mu.Key == idx && core.Strip(mu.Value) == push.(ssa.Value)
 			}, nil)
@@ -416,7 +416,7 @@ func C07(c *core.Ctx) {
 		}
 		if m != "AfterInsert" {
 			// the old element is unlinked when present
-			rm := core.FindCalls(fn, core.CalleeID{Pkg: "container/list", Recv: "List", Name: "Remove"})
+			rm := core.FindCallsDeep(fn, core.CalleeID{Pkg: "container/list", Recv: "List", Name: "Remove"})
 			c.Decide(len(rm) > 0, "R7.3", "lru-unlinks-old:"+m, p.Pos(fn.Pos()), "old queue element removed", m+" leaves the old queue element linked (the entry would be evicted twice)")
 		}
 	}
@@ -425,7 +425,7 @@ func C07(c *core.Ctx) {
 	if pid := c.Fn("R7.5", "fw/fw", "Thread", "processIncomingData"); pid != nil {
 		admit := atomCallTrue("IsCsAdmitting", callIs(core.CalleeID{Pkg: "fw/table", Recv: "PitCsTable", Name: "IsCsAdmitting"}))
 		var eff []ssa.Instruction
-		for _, ci := range core.FindCalls(pid, core.CalleeID{Pkg: "fw/table", Recv: "PitCsTable", Name: "InsertData"}) {
+		for _, ci := range core.FindCallsDeep(pid, core.CalleeID{Pkg: "fw/table", Recv: "PitCsTable", Name: "InsertData"}) {
 			eff = append(eff, ci)
 			_, a := core.CallArgs(ci.Common())
 			pkt := ssa.Value(pid.Params[1])
@@ -436,17 +436,17 @@ func C07(c *core.Ctx) {
 			c.Decide(okArgs, "R7.2", "insert-arriving-data", c.Pos(ci), "InsertData(packet.L3.Data, packet.Raw)", "the cache is given something other than the arriving Data and its wire")
 		}
 		c.Floor("R7.5", "InsertData call sites", len(eff), 1)
-		res := core.Gate(pid, eff, pos(admit))
+		res := core.GateDeep(pid, eff, pos(admit))
 		c.Decide(res.OK && res.PassEdges > 0, "R7.5", "admit-gate", p.Pos(pid.Pos()), "InsertData reachable only when IsCsAdmitting()", "Data is cached although the content store is not admitting")
 	}
 	if pii := c.Fn("R7.5", "fw/fw", "Thread", "processIncomingInterest"); pii != nil {
 		serve := atomCallTrue("IsCsServing", callIs(core.CalleeID{Pkg: "fw/table", Recv: "PitCsTable", Name: "IsCsServing"}))
 		var eff []ssa.Instruction
-		for _, ci := range core.FindCalls(pii, core.CalleeID{Pkg: "fw/table", Recv: "PitCsTable", Name: "FindMatchingDataFromCS"}) {
+		for _, ci := range core.FindCallsDeep(pii, core.CalleeID{Pkg: "fw/table", Recv: "PitCsTable", Name: "FindMatchingDataFromCS"}) {
 			eff = append(eff, ci)
 		}
 		c.Floor("R7.5", "cache lookup call sites", len(eff), 1)
-		res := core.Gate(pii, eff, pos(serve))
+		res := core.GateDeep(pii, eff, pos(serve))
 		c.Decide(res.OK && res.PassEdges > 0, "R7.5", "serve-gate", p.Pos(pii.Pos()), "cache lookup reachable only when IsCsServing()", "the cache answers although the content store is not serving")
 	}
 	for _, nm := range [][2]string{{"IsCsAdmitting", "csAdmit"}, {"IsCsServing", "csServe"}} {
